@@ -42,6 +42,12 @@ pub fn verif_uppercase_char(c: char) -> char {
     cfb_uppercase_char(c)
 }
 
+fn utf16(c: char) -> impl Iterator<Item = u16> {
+    let mut units = [0u16; 2];
+    let len = c.encode_utf16(&mut units).len();
+    IntoIterator::into_iter(units).take(len)
+}
+
 /// Compares two directory entry names according to CFB ordering, which is
 /// case-insensitive, and which always puts shorter names before longer names,
 /// as encoded in UTF-16 (i.e. [shortlex
@@ -74,8 +80,10 @@ pub fn compare_names(name1: &str, name2: &str) -> Ordering {
             // units, along with a list of weird exceptions and corner cases.  But
             // hopefully this is good enough for 99+% of the time.
             Ordering::Equal => {
-                let n1 = name1.chars().map(cfb_uppercase_char);
-                let n2 = name2.chars().map(cfb_uppercase_char);
+                // Compare UTF-16 code units, not scalar values: a surrogate
+                // pair sorts below U+E000..U+FFFF.
+                let n1 = name1.chars().map(cfb_uppercase_char).flat_map(utf16);
+                let n2 = name2.chars().map(cfb_uppercase_char).flat_map(utf16);
                 n1.cmp(n2)
             }
             other => other,
